@@ -91,6 +91,13 @@ def cases_sampler(tier):
             yield "%s/R2P1N2/spelled-%s" % (method, spelled), {"method": method, "R": 2, "P": 1, "N": 2, "mask": None, "shared": False, "options": {}, "spelled": spelled}
     for spelled in ("default", "Default", "scipy/default", "SciPy/DEFAULT"):
         yield "norm/R2P1N2/spelled-%s" % spelled, {"method": "norm", "R": 2, "P": 1, "N": 2, "mask": None, "shared": False, "options": {}, "spelled": spelled}
+    # a realization with weight zero is still a realization: it gets its samples like every other one
+    for method in ("norm", "lhs"):
+        for shared in (False, True):
+            yield "%s/R3P2N2/one-zero-weight-realization/%s" % (method, "shared" if shared else "per-realization"), {
+                "method": method, "R": 3, "P": 2, "N": 2, "mask": None, "shared": shared, "options": {}, "weights": [1.0, 0.0, 2.0]}
+            yield "%s/R3P2N2/one-zero-weight-realization/mask/%s" % (method, "shared" if shared else "per-realization"), {
+                "method": method, "R": 3, "P": 2, "N": 2, "mask": [True, False], "shared": shared, "options": {}, "weights": [1.0, 0.0, 2.0]}
     yield "uniform/R2P1N1/options-override", {"method": "uniform", "R": 2, "P": 1, "N": 1, "mask": None, "shared": False, "options": {"loc": 0.0, "scale": 0.5}}
     # partial options: the defaults still fill in what the user left out
     yield "uniform/R2P1N1/options-partial", {"method": "uniform", "R": 2, "P": 1, "N": 1, "mask": None, "shared": False, "options": {"scale": 2.0}}
@@ -130,7 +137,7 @@ def scn_sampler(T, case):
         cfg = types.SimpleNamespace(
             samplers=(types.SimpleNamespace(method=case.get("spelled", "scipy/" + method), options=dict(case["options"]), shared=shared),),
             variables=types.SimpleNamespace(initial_values=np.zeros(N)),
-            realizations=types.SimpleNamespace(weights=np.ones(R) / R),
+            realizations=types.SimpleNamespace(weights=(np.array(case["weights"]) / sum(case["weights"])) if case.get("weights") else np.ones(R) / R),
             gradient=types.SimpleNamespace(number_of_perturbations=P),
         )
         if case.get("prior"):
